@@ -477,6 +477,133 @@ func runL1(c *driver.Ctx, base *int64) {
 	*base = g
 }
 
+// limitsWide computes the limits the runtime actually uses (limit_mib takes precedence when it is set, then
+// spike_limit_mib is its spike; otherwise the percentage pair of the total; an unspecified spike is 20 % of the
+// limit) in signed arithmetic, so that a spike above the limit shows as a soft limit <= 0 instead of wrapping.
+func (l limCfg) limitsWide() (soft, hard int64, exact bool) {
+	exact = true
+	var limit, spike int64
+	if l.MiB != 0 {
+		limit, spike = int64(l.MiB)*mib, int64(l.SpikeMiB)*mib
+	} else {
+		if (uint64(l.Pct)*l.Total)%100 != 0 || (uint64(l.SpikePct)*l.Total)%100 != 0 {
+			exact = false
+		}
+		limit, spike = int64(uint64(l.Pct)*l.Total/100), int64(uint64(l.SpikePct)*l.Total/100)
+	}
+	if spike == 0 {
+		if limit%5 != 0 {
+			exact = false
+		}
+		spike = limit / 5
+	}
+	return limit - spike, limit, exact
+}
+
+var (
+	mixMiB      = []uint32{0, 5, 10, 100, 4095}
+	mixSpikeMiB = []uint32{0, 1, 5, 20, 200, 5000}
+	mixPct      = []uint32{0, 1, 50, 75, 100, 120}
+	mixSpikePct = []uint32{0, 10, 50, 99, 100}
+	mixTotal    = []uint64{1000 * mib, 500 * mib, 64000 * mib}
+	// directed: one pair is contradictory (spike above its limit), the other pair is sane
+	mixDirected = []limCfg{
+		{MiB: 10, SpikeMiB: 20, Pct: 50, SpikePct: 10, Total: 1000 * mib},
+		{MiB: 100, SpikeMiB: 20, Pct: 10, SpikePct: 50, Total: 1000 * mib},
+		{MiB: 5, SpikeMiB: 5, Pct: 75, SpikePct: 0, Total: 500 * mib},
+		{MiB: 100, SpikeMiB: 0, Pct: 50, SpikePct: 10, Total: 1000 * mib},
+		{MiB: 0, SpikeMiB: 200, Pct: 50, SpikePct: 10, Total: 1000 * mib},
+		{MiB: 4095, SpikeMiB: 5000, Pct: 100, SpikePct: 99, Total: 64000 * mib},
+	}
+)
+
+// runL1Mixed: configurations that set the fixed pair, the percentage pair, or both, including contradictory
+// ones. What Config.Validate rejects is skipped (counted); what it accepts must behave as the reference
+// decision function says for the limits the runtime actually uses.
+func runL1Mixed(c *driver.Ctx, base *int64) {
+	st := &l1state{}
+	install(st)
+	n := int64(c.N(2400, 40000))
+	for k := int64(0); k < n; k++ {
+		idx := *base + k
+		if !c.Mine(idx) {
+			continue
+		}
+		rng := c.CaseRand(idx)
+		var lc limCfg
+		if int(k) < 4*len(mixDirected) {
+			lc = mixDirected[int(k)%len(mixDirected)]
+		} else {
+			lc = limCfg{MiB: mixMiB[rng.Intn(len(mixMiB))], SpikeMiB: mixSpikeMiB[rng.Intn(len(mixSpikeMiB))], Pct: mixPct[rng.Intn(len(mixPct))],
+				SpikePct: mixSpikePct[rng.Intn(len(mixSpikePct))], Total: mixTotal[rng.Intn(len(mixTotal))]}
+			if rng.Intn(10) < 7 { // mostly both pairs
+				if lc.MiB == 0 {
+					lc.MiB = mixMiB[1+rng.Intn(len(mixMiB)-1)]
+				}
+				if lc.Pct == 0 {
+					lc.Pct = mixPct[1+rng.Intn(len(mixPct)-1)]
+				}
+			}
+		}
+		lc.Name = fmt.Sprintf("mixed mib %d/%d pct %d/%d", lc.MiB, lc.SpikeMiB, lc.Pct, lc.SpikePct)
+		both := "one-pair"
+		if lc.MiB != 0 && lc.Pct != 0 {
+			both = "both-pairs"
+		}
+		rg := regimes[rng.Intn(len(regimes))]
+		cfg := lc.config(time.Hour, rg.SoftIv, rg.HardIv)
+		if err := cfg.Validate(); err != nil {
+			c.Observe("l1_mixed_configs_rejected_by_validate:"+both, 1)
+			continue
+		}
+		c.Observe("l1_mixed_configs_accepted:"+both, 1)
+		soft, hard, exact := lc.limitsWide()
+		if !exact {
+			c.Observe("l1_mixed_configs_skipped_reference_depends_on_rounding", 1)
+			continue
+		}
+		if soft >= 2 && hard-soft >= 2 {
+			ln := 4 + rng.Intn(5)
+			classes, effs := make([]int, ln), make([]int, ln)
+			for i := range classes {
+				classes[i], effs[i] = rng.Intn(nClasses), rng.Intn(nEffects)
+			}
+			l1Run(c, st, rng, lc, rg, classes, effs)
+			c.Nontrivial("L1-mixed", lc.Name, lc.Total, rg.Name)
+			continue
+		}
+		// The accepted configuration has spike >= limit: limit - spike is not positive, every reading is at or
+		// above it, so the limiter must refuse whatever it measures.
+		st.total = lc.Total
+		core := &capCore{}
+		var ml *memorylimiter.MemoryLimiter
+		var err error
+		if pv, stack := driver.Catch(func() { ml, err = memorylimiter.NewMemoryLimiter(lc.config(time.Hour, time.Hour, time.Hour), zap.New(core)) }); pv != nil {
+			c.Violation("panic", fmt.Sprintf("NewMemoryLimiter panicked: %v", pv), map[string]any{"config": lc, "stack": stack}, "site", driver.PanicSite(stack))
+			continue
+		}
+		if err != nil {
+			c.Violation("L1-create", "a configuration accepted by Validate is refused by NewMemoryLimiter: "+err.Error(), map[string]any{"config": lc}, "config", "mixed")
+			continue
+		}
+		c.Eval()
+		for _, lv := range []uint64{0, 1, uint64(hard) / 2, uint64(hard), uint64(hard) + 1, math.MaxUint64} {
+			st.script = [2]uint64{lv, lv}
+			st.pos, st.reads = 0, 0
+			ml.CheckMemLimits()
+			c.Observe("l1_checks", 1)
+			if !ml.MustRefuse() {
+				c.Violation("L1-decision", fmt.Sprintf("Validate accepted a configuration whose spike is not below its limit (limit - spike = %d bytes): every reading is at or above limit - spike, yet the limiter does not refuse at reading %d", soft, lv),
+					map[string]any{"layer": "L1-mixed", "config": lc, "limit_bytes": hard, "limit_minus_spike_bytes": soft, "reading": lv},
+					"field", "MustRefuse", "level", "any-reading-with-non-positive-soft-limit", "gc", "not-due", "prev_refusing", "-")
+				break
+			}
+		}
+		c.Nontrivial("L1-mixed-nonpositive-soft", lc.Name)
+	}
+	*base += n
+}
+
 // l1Timed: a few cases with real minimum-GC intervals. Every decision is bracketed by harness timestamps;
 // a decision is only judged when the bracket lies clearly on one side of the interval.
 func runL1Timed(c *driver.Ctx, base *int64) {
@@ -971,6 +1098,7 @@ type l2op struct {
 	Effect string `json:"gc_effect,omitempty"`
 	Sink   string `json:"sink,omitempty"`
 	Shape  string `json:"payload_shape,omitempty"`
+	Ctx    string `json:"start_context,omitempty"`
 	Expect string `json:"expect,omitempty"`
 }
 
@@ -986,9 +1114,10 @@ type stopped struct {
 }
 
 type l2env struct {
-	c    *driver.Ctx
-	w    *witness
-	done []stopped
+	c        *driver.Ctx
+	w        *witness
+	done     []stopped
+	ctxEnded atomic.Bool // a Start context of the current case has been cancelled / has expired
 }
 
 func (e *l2env) checkNoLateReads(final bool) {
@@ -1011,6 +1140,7 @@ func (e *l2env) checkNoLateReads(final bool) {
 // from one configuration.
 func (e *l2env) l2Sequential(idx int64, rng *rand.Rand, allowGap bool) {
 	c := e.c
+	e.ctxEnded.Store(false)
 	soft, hard, _ := l2cfg.limits()
 	rg := regimes[rng.Intn(len(regimes))]
 	np := 2 + rng.Intn(3)
@@ -1060,7 +1190,7 @@ func (e *l2env) l2Sequential(idx int64, rng *rand.Rand, allowGap bool) {
 			c.Inconclusive("checker-busy-for-4000-witness-ticks")
 			return false
 		}
-		c.Violation("L2-liveness", "the shared checker stopped measuring although a started processor is still using the limiter (witness ticker of the same period fired 3 x 400 times meanwhile)", livenessWit(wit()), "pattern", pattern)
+		c.Violation("L2-liveness", "the shared checker stopped measuring although a started processor is still using the limiter (witness ticker of the same period fired 3 x 400 times meanwhile)", livenessWit(wit()), "pattern", e.pat(pattern))
 		return false
 	}
 	// immediate: a Start / Shutdown of one sharer has just returned; without waiting for any check, every
@@ -1123,8 +1253,9 @@ func (e *l2env) l2Sequential(idx int64, rng *rand.Rand, allowGap bool) {
 		switch k {
 		case "start":
 			i := pick(0)
-			ops = append(ops, l2op{Kind: "start", P: i})
-			if err := safeStart(e.c, procs[i].comp); err != nil {
+			cm := rng.Intn(nCtxModes)
+			ops = append(ops, l2op{Kind: "start", P: i, Ctx: ctxModeNames[cm]})
+			if err := e.start(procs[i].comp, cm); err != nil {
 				c.Violation("L2-lifecycle", "Start returned an error: "+err.Error(), wit(), "op", "start")
 			}
 			state[i] = 1
@@ -1227,6 +1358,7 @@ func (e *l2env) l2Sequential(idx int64, rng *rand.Rand, allowGap bool) {
 // there is a user; the limiter's ticker was stopped by the first Shutdown and is never re-armed.
 func (e *l2env) l2Restart(idx int64) {
 	c := e.c
+	e.ctxEnded.Store(false)
 	soft, hard, _ := l2cfg.limits()
 	_ = soft
 	rg := regimes[1]
@@ -1247,9 +1379,9 @@ func (e *l2env) l2Restart(idx int64) {
 	}
 	c.Eval()
 	ops = append(ops, l2op{Kind: "start", P: 0})
-	_ = safeStart(e.c, p0.comp)
+	_ = e.start(p0.comp, ctxBackground)
 	if waitReads(m, e.w, 3) != alive {
-		c.Violation("L2-liveness", "the checker never measured after the first Start", livenessWit(wit()), "pattern", "users-remain")
+		c.Violation("L2-liveness", "the checker never measured after the first Start", livenessWit(wit()), "pattern", e.pat("users-remain"))
 		_ = safeStop(e.c, p0.comp)
 		return
 	}
@@ -1258,7 +1390,7 @@ func (e *l2env) l2Restart(idx int64) {
 	lv := hard + 1
 	m.set(lv, lv)
 	ops = append(ops, l2op{Kind: "level", Class: clNames[clAbove], Effect: effNames[effNone], Expect: "refusing=true"}, l2op{Kind: "start", P: 1})
-	_ = safeStart(e.c, p1.comp)
+	_ = e.start(p1.comp, ctxBackground)
 	if r := waitReads(m, e.w, 3); r == alive {
 		c.Observe("l2_liveness_checks", 1)
 		ops = append(ops, l2op{Kind: "consume", P: 1, Sink: "nil", Expect: "refusing=true"})
@@ -1283,14 +1415,51 @@ func (e *l2env) l2Restart(idx int64) {
 	c.Nontrivial("L2-directed-restart")
 }
 
-// safeStart / safeStop turn a panic inside a lifecycle call into a violation instead of a dead child.
-func safeStart(c *driver.Ctx, comp component.Component) error {
+// How the context handed to Start ends: the component contract says it only governs the Start call itself, so
+// a processor (and the shared checker its Start may have launched) keeps running after that context is
+// cancelled or its deadline has passed.
+const (
+	ctxBackground = iota
+	ctxCancelledAfterStart
+	ctxDeadlinePassesAfterStart
+	nCtxModes
+)
+
+var ctxModeNames = []string{"background", "cancelled-after-start", "deadline-passes-after-start"}
+
+// start calls Start with a context of the given kind and ends that context once Start has returned. A panic
+// inside the lifecycle call becomes a violation instead of a dead child.
+func (e *l2env) start(comp component.Component, mode int) error {
+	c := e.c
+	ctx, cancel := context.Background(), context.CancelFunc(func() {})
+	switch mode {
+	case ctxCancelledAfterStart:
+		ctx, cancel = context.WithCancel(ctx)
+	case ctxDeadlinePassesAfterStart:
+		ctx, cancel = context.WithTimeout(ctx, 500*time.Microsecond)
+	}
 	var err error
-	if pv, stack := driver.Catch(func() { err = comp.Start(context.Background(), componenttest.NewNopHost()) }); pv != nil {
+	if pv, stack := driver.Catch(func() { err = comp.Start(ctx, componenttest.NewNopHost()) }); pv != nil {
 		c.Violation("panic", fmt.Sprintf("Start panicked: %v", pv), map[string]any{"stack": stack}, "site", driver.PanicSite(stack))
-		return nil
+		err = nil
+	}
+	if mode == ctxDeadlinePassesAfterStart {
+		<-ctx.Done()
+	}
+	cancel()
+	if mode != ctxBackground {
+		e.ctxEnded.Store(true)
+		c.Observe("l2_starts_whose_context_ended_afterwards:"+ctxModeNames[mode], 1)
 	}
 	return err
+}
+
+// pat qualifies a liveness pattern when a Start context of the current case has ended.
+func (e *l2env) pat(p string) string {
+	if e.ctxEnded.Load() {
+		return p + "+start-context-ended"
+	}
+	return p
 }
 
 func safeStop(c *driver.Ctx, comp component.Component) error {
@@ -1307,6 +1476,7 @@ type mustRefuser interface{ MustRefuse() bool }
 // l2Extension: the extension's MustRefuse follows the reference; its checker stops with Shutdown.
 func (e *l2env) l2Extension(idx int64, rng *rand.Rand) {
 	c := e.c
+	e.ctxEnded.Store(false)
 	soft, hard, _ := l2cfg.limits()
 	rg := regimes[rng.Intn(len(regimes))]
 	m := &meter{}
@@ -1330,7 +1500,7 @@ func (e *l2env) l2Extension(idx int64, rng *rand.Rand) {
 		return
 	}
 	c.Eval()
-	if err := safeStart(e.c, ext); err != nil {
+	if err := e.start(ext, int(idx)%nCtxModes); err != nil {
 		c.Violation("L2-lifecycle", "Start returned an error: "+err.Error(), wit(), "op", "start")
 		return
 	}
@@ -1346,7 +1516,7 @@ func (e *l2env) l2Extension(idx int64, rng *rand.Rand) {
 		ops = append(ops, l2op{Kind: "level", Class: clNames[cl], Effect: effNames[eff], Expect: fmt.Sprintf("refusing=%v", want)})
 		if r := waitReads(m, e.w, 3); r != alive {
 			if r == dead {
-				c.Violation("L2-liveness", "the extension's checker stopped measuring while the extension is started", livenessWit(wit()), "pattern", "extension")
+				c.Violation("L2-liveness", "the extension's checker stopped measuring while the extension is started", livenessWit(wit()), "pattern", e.pat("extension"))
 			} else {
 				c.Inconclusive("checker-busy-for-4000-witness-ticks")
 			}
@@ -1379,6 +1549,7 @@ func (e *l2env) l2Extension(idx int64, rng *rand.Rand) {
 // alive whenever the harness looks. Mainly meaningful in the race variant.
 func (e *l2env) l2Concurrent(idx int64, rng *rand.Rand) {
 	c := e.c
+	e.ctxEnded.Store(false)
 	soft, hard, _ := l2cfg.limits()
 	rg := regimes[1+rng.Intn(2)] // keep forced GCs rare here: 1h/1h or 1h/0
 	np := 3 + rng.Intn(3)
@@ -1407,7 +1578,7 @@ func (e *l2env) l2Concurrent(idx int64, rng *rand.Rand) {
 	wit := func() any {
 		return map[string]any{"layer": "L2-concurrent", "processors": sigs, "regime": rg.Name, "case": idx}
 	}
-	if err := safeStart(e.c, procs[0].comp); err != nil {
+	if err := e.start(procs[0].comp, int(idx)%nCtxModes); err != nil {
 		c.Violation("L2-lifecycle", "Start returned an error: "+err.Error(), wit(), "op", "start")
 		return
 	}
@@ -1442,7 +1613,7 @@ func (e *l2env) l2Concurrent(idx int64, rng *rand.Rand) {
 			if r.Intn(2) == 0 {
 				runtime.Gosched()
 			}
-			if err := safeStart(e.c, p.comp); err != nil {
+			if err := e.start(p.comp, r.Intn(nCtxModes)); err != nil {
 				c.Violation("L2-lifecycle", "Start returned an error: "+err.Error(), wit(), "op", "start")
 			}
 			mark(fmt.Sprintf("S%d", i))
@@ -1470,7 +1641,7 @@ func (e *l2env) l2Concurrent(idx int64, rng *rand.Rand) {
 	m.set(lv, lv)
 	if r := waitReads(m, e.w, 3); r != alive {
 		if r == dead {
-			c.Violation("L2-liveness", "the shared checker stopped measuring although a started processor is still using the limiter (witness ticker of the same period fired 3 x 400 times meanwhile)", livenessWit(wit()), "pattern", "users-remain")
+			c.Violation("L2-liveness", "the shared checker stopped measuring although a started processor is still using the limiter (witness ticker of the same period fired 3 x 400 times meanwhile)", livenessWit(wit()), "pattern", e.pat("users-remain"))
 		} else {
 			c.Inconclusive("checker-busy-for-4000-witness-ticks")
 		}
@@ -1516,6 +1687,7 @@ func pickMode(rng *rand.Rand, rg regime, soft, hard uint64, refuse bool) (cl, ef
 // the others do.
 func (e *l2env) l2ShareSwitch(idx int64, rng *rand.Rand, refuse bool) {
 	c := e.c
+	e.ctxEnded.Store(false)
 	soft, hard, _ := l2cfg.limits()
 	rg := regimes[rng.Intn(len(regimes))]
 	np := 3 + rng.Intn(2)
@@ -1553,8 +1725,9 @@ func (e *l2env) l2ShareSwitch(idx int64, rng *rand.Rand, refuse bool) {
 		}
 	}
 	for i := 0; i < np-1; i++ {
-		ops = append(ops, l2op{Kind: "start", P: i})
-		if err := safeStart(c, procs[i].comp); err != nil {
+		cm := (int(idx) + i) % nCtxModes
+		ops = append(ops, l2op{Kind: "start", P: i, Ctx: ctxModeNames[cm]})
+		if err := e.start(procs[i].comp, cm); err != nil {
 			c.Violation("L2-lifecycle", "Start returned an error: "+err.Error(), wit(), "op", "start")
 		}
 		started[i] = true
@@ -1564,7 +1737,7 @@ func (e *l2env) l2ShareSwitch(idx int64, rng *rand.Rand, refuse bool) {
 	ops = append(ops, l2op{Kind: "level", Class: clNames[cl], Effect: effNames[eff], Expect: fmt.Sprintf("refusing=%v", refuse)})
 	if r := waitReads(m, e.w, 3); r != alive {
 		if r == dead {
-			c.Violation("L2-liveness", "the shared checker stopped measuring although a started processor is still using the limiter (witness ticker of the same period fired 3 x 400 times meanwhile)", livenessWit(wit()), "pattern", "users-remain")
+			c.Violation("L2-liveness", "the shared checker stopped measuring although a started processor is still using the limiter (witness ticker of the same period fired 3 x 400 times meanwhile)", livenessWit(wit()), "pattern", e.pat("users-remain"))
 		} else {
 			c.Inconclusive("checker-busy-for-4000-witness-ticks")
 		}
@@ -1601,8 +1774,9 @@ func (e *l2env) l2ShareSwitch(idx int64, rng *rand.Rand, refuse bool) {
 		}
 	}
 	// a further sharer starts
-	ops = append(ops, l2op{Kind: "start", P: np - 1})
-	if err := safeStart(c, procs[np-1].comp); err != nil {
+	lateCm := rng.Intn(nCtxModes)
+	ops = append(ops, l2op{Kind: "start", P: np - 1, Ctx: ctxModeNames[lateCm]})
+	if err := e.start(procs[np-1].comp, lateCm); err != nil {
 		c.Violation("L2-lifecycle", "Start returned an error: "+err.Error(), wit(), "op", "start")
 	}
 	started[np-1] = true
@@ -1643,6 +1817,7 @@ func (e *l2env) l2ShareSwitch(idx int64, rng *rand.Rand, refuse bool) {
 // in every call. Mainly meaningful in the race variant.
 func (e *l2env) l2ShareSwitchConcurrent(idx int64, rng *rand.Rand, refuse bool) {
 	c := e.c
+	e.ctxEnded.Store(false)
 	soft, hard, _ := l2cfg.limits()
 	rg := regimes[1+rng.Intn(2)]
 	np := 3 + rng.Intn(3)
@@ -1668,7 +1843,7 @@ func (e *l2env) l2ShareSwitchConcurrent(idx int64, rng *rand.Rand, refuse bool) 
 	wit := func() any {
 		return map[string]any{"layer": "L2-share-switch-concurrent", "processors": sigs, "regime": rg.Name, "mode_refusing": refuse, "level": clNames[cl], "gc_effect": effNames[eff], "case": idx}
 	}
-	if err := safeStart(c, procs[0].comp); err != nil {
+	if err := e.start(procs[0].comp, int(idx)%nCtxModes); err != nil {
 		c.Violation("L2-lifecycle", "Start returned an error: "+err.Error(), wit(), "op", "start")
 		return
 	}
@@ -1697,7 +1872,7 @@ func (e *l2env) l2ShareSwitchConcurrent(idx int64, rng *rand.Rand, refuse bool) 
 			defer running.Add(-1)
 			r := rand.New(rand.NewSource(seeds[i]))
 			time.Sleep(time.Duration(r.Intn(300)) * time.Microsecond)
-			if err := safeStart(c, procs[i].comp); err != nil {
+			if err := e.start(procs[i].comp, r.Intn(nCtxModes)); err != nil {
 				c.Violation("L2-lifecycle", "Start returned an error: "+err.Error(), wit(), "op", "start")
 			}
 			checkConsume(c, procs[i], fmt.Sprintf("x%d.%d", idx, i), mode, r.Intn(3), wit, "concurrent-start-shutdown")
@@ -1805,6 +1980,7 @@ func run(c *driver.Ctx) {
 		prev := runtime.GOMAXPROCS(1)
 		runL1(c, &base)
 		runL1Timed(c, &base)
+		runL1Mixed(c, &base)
 		runtime.GOMAXPROCS(prev)
 	} else {
 		base = 1 << 40
@@ -1820,9 +1996,11 @@ func main() {
 			"non-trivial = the reference refuse state changes at least once (the sequence crosses the soft limit); distinct = distinct (class sequence, regime, effect). " +
 			"L2: a case is one interleaving of start / shutdown / level change / consume over 2-4 processors (logs, traces, metrics, profiles) created from one configuration (after every Start / Shutdown of one sharer all started sharers are consumed through immediately, before any further check), a directed share-switch case (mode fixed refusing or not refusing, one sharer starts late, sharers leave one by one, sequentially or concurrently with a consuming anchor), the extension, or a concurrent start/consume/shutdown run; non-trivial = the limiter went into refusing mode at least once",
 		Assumptions: []string{
+			"mixed configurations (fixed pair and percentage pair both set, incl. contradictory pairs) are drawn as well: what Config.Validate rejects is skipped and counted, what it accepts is judged against the limits the runtime uses (limit_mib and its spike take precedence when limit_mib is set), computed in signed arithmetic",
 			"limit configurations are those accepted by Config.Validate whose byte limits are exact integers (percentages of totals divisible by 100, default spike of limits divisible by 5), so the reference does not depend on rounding",
 			"minimum GC interval regimes 0 (always due) and 1 h (never due) are decided without a clock; the few real-interval cases judge a decision only when harness timestamps bracket it clearly on one side",
 			"L2 payloads: about 40 % carry no items (empty, resource-only, scope-only, metric without data points / profile without samples) and the directed share-switch cases send every shape through every sharer; the sink counts calls, its scripted result (nil, transient, permanent) must come back also for them",
+			"two thirds of all Start calls get a context that is cancelled, or whose deadline passes, right after Start returned (the context governs the Start call only); liveness and mode oracles are unchanged for them",
 			"L2 never consumes through a processor that is not started or already shut down; checker liveness is judged relative to a witness ticker of the same period (3 x 400 witness ticks without one measurement and without a limiter goroutine inside a check = stopped)",
 			"interleavings in which every user shut down and a further processor of the same configuration starts afterwards are generated (the directed reproducer of C18-a and 1 in 32 sequential cases); a collector never produces them (all components start before any stops)",
 		},
